@@ -76,3 +76,105 @@ package zip
 //@     decreases len(z.File) - @idx
 //@   uses join_within
 //@   props C12
+
+//@ # ---------- which files belong in a module zip (C17) and what Create writes (C05) ----------
+//@ iface File.Path(f File) string
+//@   pure
+//@ iface File.Lstat(f File) (info fs.FileInfo, err error)
+//@   allocates
+//@   ensures err == nil ==> info != nil
+//@ iface File.Open(f File) (rc io.ReadCloser, err error)
+//@   allocates
+//@   ensures err == nil ==> rc != nil
+
+//@ spec func GE124(vers string) bool = version.Compare(vers, "go1.24") >= 0
+//@ # the documented notion of a vendored package file, including the pre-1.24 offset bug kept for hash stability
+//@ spec func VENDORED(name string, vers string) bool =
+//@     (GE124(vers) && name == "vendor/modules.txt")
+//@     || (strings.HasPrefix(name, "vendor/") && strings.Contains(name[7:], "/"))
+//@     || (!strings.HasPrefix(name, "vendor/") && strings.Index(name, "/vendor/") >= 0
+//@         && strings.Contains(name[(if GE124(vers) then strings.Index(name, "/vendor/") + 8 else 8):], "/"))
+
+//@ func isVendoredPackage
+//@   pure
+//@   ensures result == VENDORED(name, vers)
+//@   props C17 C05
+
+//@ func parseGoVers
+//@   allocates
+//@   trusted "delegates to modfile.ParseLax; only its frame is used (the go version is an opaque string here)"
+//@   props C17 C05
+
+//@ # what the file check lets through as a valid file name
+//@ spec func VALIDNAME(p string, vers string) bool =
+//@     path.Clean(p) == p && !path.IsAbs(p) && !VENDORED(p, vers) && p != ".hg_archival.txt" && PATHOK(p, 2)
+//@     && !(strings.ToLower(p) == "go.mod" && p != "go.mod")
+
+//@ func checkFiles$1
+//@   requires errPaths != nil
+//@   modifies cf, []FileError, errPaths
+//@   allocates
+//@   ensures cf.Valid == old(cf.Valid) && cf.SizeError == old(cf.SizeError)
+//@   ensures len(cf.Omitted) >= old(len(cf.Omitted)) && len(cf.Invalid) >= old(len(cf.Invalid))
+//@   props C17 C05
+
+//@ func checkFiles$2
+//@   loop 0:
+//@     invariant true
+//@   props C17 C05
+
+//@ # every name reported as valid passed every documented rule; the valid files and their sizes are listed in parallel
+//@ func checkFiles
+//@   let VERS string = vers @after loop 0
+//@   modifies map.collisionChecker, []FileError, ghost.WRITTEN, "map[string]bool", "map[string]struct{}"
+//@   ensures [C17, C05] valid_names: forall k int :: 0 <= k && k < len(cf.Valid) ==> VALIDNAME(cf.Valid[k], VERS)
+//@   ensures [C17, C05] parallel: len(validFiles) == len(cf.Valid) && len(validSizes) == len(cf.Valid) && (forall k int :: 0 <= k && k < len(cf.Valid) ==> validFiles[k] != nil && validFiles[k].Path() == cf.Valid[k])
+//@   ensures [C17, C05] sizes: cf.SizeError == nil ==> (forall k int :: 0 <= k && k < len(validSizes) ==> 0 <= validSizes[k] && validSizes[k] <= MaxZipFile)
+//@   loop 0:
+//@     invariant 0 - 1 <= @idx && @idx < len(files) && errPaths != nil && haveGoMod != nil
+//@     invariant len(cf.Valid) == 0 && cf.SizeError == nil && len(validFiles) == 0 && len(validSizes) == 0
+//@     invariant fresharr(cf.Valid) && fresharr(validFiles) && fresharr(validSizes) && oldarrays_kept(cf.Valid) && oldarrays_kept(validFiles) && oldarrays_kept(validSizes)
+//@     decreases len(files) - @idx
+//@   loop 1:
+//@     invariant 0 - 1 <= @idx && @idx < len(files) && errPaths != nil && haveGoMod != nil && collisions != nil && vers == VERS
+//@     invariant 0 <= maxSize && maxSize <= MaxZipFile
+//@     invariant fresharr(cf.Valid) && fresharr(validFiles) && fresharr(validSizes) && oldarrays_kept(cf.Valid) && oldarrays_kept(validFiles) && oldarrays_kept(validSizes)
+//@     invariant forall k int :: 0 <= k && k < len(cf.Valid) ==> VALIDNAME(cf.Valid[k], VERS)
+//@     invariant len(validFiles) == len(cf.Valid) && len(validSizes) == len(cf.Valid) && (forall k int :: 0 <= k && k < len(cf.Valid) ==> validFiles[k] != nil && validFiles[k].Path() == cf.Valid[k])
+//@     invariant cf.SizeError == nil ==> (forall k int :: 0 <= k && k < len(validSizes) ==> 0 <= validSizes[k] && validSizes[k] <= MaxZipFile)
+//@     decreases len(files) - @idx
+//@   requires forall i int :: 0 <= i && i < len(files) ==> files[i] != nil
+//@   props C17 C05
+
+//@ func CheckFiles
+//@   requires forall i int :: 0 <= i && i < len(files) ==> files[i] != nil
+//@   modifies map.collisionChecker, []FileError, ghost.WRITTEN, "map[string]bool", "map[string]struct{}"
+//@   ensures [C17] report_is_error: (result1 == nil) == (result0.SizeError == nil && len(result0.Invalid) == 0)
+//@   props C17
+
+//@ func Create$1
+//@   modifies err
+//@   allocates
+//@   ensures (err == nil) == (old(err) == nil)
+//@   props C05
+
+//@ # addFile: the entry is created under the module prefix with a clean valid file path
+//@ func Create$2
+//@   requires f != nil && zw != nil && FILEOKNAME(path) && 0 <= size && size <= MaxZipFile
+//@   modifies ghost.WRITTEN
+//@   allocates
+//@   call (*zip.Writer).Create requires [C05] entry_name: arg_name == prefix + path && FILEOKNAME(path)
+//@   props C05
+
+//@ # Create writes only entries "<path>@<version>/<p>" for names p that the file check reported valid, after the
+//@ # version was checked canonical, the path/version pair valid, and the file check reported no error
+//@ func Create
+//@   requires forall i int :: 0 <= i && i < len(files) ==> files[i] != nil
+//@   modifies map.collisionChecker, []FileError, ghost.WRITTEN, "map[string]bool", "map[string]struct{}"
+//@   ensures [C05] checked_first: err == nil ==> module.CanonicalVersion(m.Version) == m.Version && MODPATHOK(m.Path) && semver.IsValid(m.Version)
+//@   loop 0:
+//@     invariant 0 - 1 <= @idx && @idx < len(validFiles) && zw != nil && prefix == SPR2("%s@%s/", m.Path, m.Version)
+//@     invariant module.CanonicalVersion(m.Version) == m.Version && MODPATHOK(m.Path) && semver.IsValid(m.Version)
+//@     invariant len(validSizes) == len(validFiles) && (forall k int :: 0 <= k && k < len(validFiles) ==> validFiles[k] != nil && FILEOKNAME(validFiles[k].Path()) && 0 <= validSizes[k] && validSizes[k] <= MaxZipFile)
+//@     decreases len(validFiles) - @idx
+//@   props C05
